@@ -91,7 +91,8 @@ type End struct {
 	finSet   bool  // peer closed / fault: a terminal condition follows the in-flight bytes
 	finErr   error // io.EOF or a reset error
 	finReady time.Time
-	rTerm    error // delivered terminal condition
+	rTerm    error         // delivered terminal condition
+	TermAt   time.Duration // when it was delivered
 	closed   bool
 	waiting  bool
 	readWake chan struct{}
@@ -323,6 +324,11 @@ func (c *End) writeLocked(p []byte, cont bool) (int, error) {
 	}
 	if !cont {
 		c.Writes++
+	}
+	if c.finSet && c.finErr != nil && c.finErr != io.EOF && !time.Now().Before(c.finReady) {
+		// the peer's RST has reached this host (whether or not anybody reads): writes fail at once
+		c.writeBroken = true
+		return 0, &net.OpError{Op: "write", Net: "tcp", Err: os.NewSyscallError("write", syscall.ECONNRESET)}
 	}
 	if c.writeBroken {
 		return 0, &net.OpError{Op: "write", Net: "tcp", Err: os.NewSyscallError("write", syscall.EPIPE)}
@@ -676,6 +682,7 @@ func (c *End) terminate(err error, discard bool, why string) {
 		err = io.EOF
 	}
 	c.rTerm = err
+	c.TermAt = c.e.Now()
 	c.inflight = nil
 	c.marks = nil
 	c.freeWindow()
